@@ -279,7 +279,90 @@ def rule_e(ctx):
     from . import c02
     c02.rule_a(ctx)
 
+ALLBITS = frozenset(["low", "flag", "high"])
+
+
+def mask_class(o):
+    """Abstract value of a mask expression over the bit classes of a queue position word:
+    low = index bits, flag = the closed-channel bit, high = sequence-count bits.  None if not a mask expression."""
+    if not isinstance(o, tuple) or not o:
+        return None
+    rt, names = origin_proj_names(o)
+    if o[0] == "proj" and names and names[-1] == ("f", "right_mask"):
+        return frozenset(["low", "flag"])
+    if o[0] == "proj" and names and names[-1] == ("f", "closed_channel_mask"):
+        return frozenset(["flag"])
+    if o[0] == "un" and o[1] == "Not":
+        m = mask_class(o[2])
+        return None if m is None else ALLBITS - m
+    if o[0] == "bin":
+        op = o[1].replace("Unchecked", "")
+        a, b = mask_class(o[2]), mask_class(o[3])
+        if op == "Shr" and a is not None and isinstance(o[3], tuple) and o[3][0] == "const" and o[3][1] == 1:
+            # {low,flag} >> 1 = {low}; anything containing `high` may leak into flag
+            if a == frozenset(["low", "flag"]):
+                return frozenset(["low"])
+            if a == frozenset(["low"]):
+                return frozenset(["low"])
+            return ALLBITS
+        if op == "BitAnd" and a is not None and b is not None:
+            return a & b
+        if op == "BitOr" and a is not None and b is not None:
+            return a | b
+    return None
+
+
+def rule_f(ctx):
+    """len() must not depend on the closed flag (abstract interpretation over the three bit classes of a position word)"""
+    P = ctx.prog
+    nb = ctx.body(Q + "new")
+    lb = ctx.body(Q + "len")
+    if not nb or not lb:
+        return
+    # premises: closed_channel_mask = capacity.next_power_of_two(); right_mask = (closed_channel_mask << 1) - 1
+    aggs = list(nb.aggregates(adt="channel::queue::Queue"))
+    ok = len(aggs) == 1
+    if ok:
+        fo = dict(zip(aggs[0].node["r"]["fields"], aggs[0].node["r"]["ops"]))
+        cm = nb.origins(fo["closed_channel_mask"], aggs[0])
+        rm = nb.origins(fo["right_mask"], aggs[0])
+        ok = len(cm) == 1 and len(rm) == 1
+        if ok:
+            c0 = next(iter(cm))
+            r0 = next(iter(rm))
+            ok = c0[0] == "call" and c0[2].endswith("next_power_of_two") and r0[0] == "call" and r0[2].endswith("wrapping_sub")
+            if ok:
+                ws = Site(nb, r0[1], TERM)
+                a0 = nb.origins(ws.args()[0], ws)
+                ok = ws.args()[1].get("v") == 1 and any(x[0] == "bin" and x[1].startswith("Shl") and x[2] == c0 and x[3][0] == "const" and x[3][1] == 1 for x in a0)
+    ctx.ob("len|mask-premises", ok,
+           "closed_channel_mask = capacity.next_power_of_two() and right_mask = (closed_channel_mask << 1) - 1 (so right_mask = index bits + closed flag)", aggs)
+    loads = {}
+    for s in lb.calls("^std::sync::atomic::Atomic::load$"):
+        loads[("call", s.b, s.callee)] = atomics.receiver_field(lb, s)
+    n = 0
+    classes = []
+    for st in lb.assigns():
+        r = st.node["r"]
+        if r["r"] != "bin" or r["op"] != "BitAnd":
+            continue
+        ao = lb.origins(r["a"], st)
+        bo = lb.origins(r["b"], st)
+        for vo, mo in ((ao, bo), (bo, ao)):
+            if len(vo) == 1 and next(iter(vo)) in loads and len(mo) == 1:
+                mc = mask_class(next(iter(mo)))
+                n += 1
+                classes.append((loads[next(iter(vo))], mc))
+                ctx.ob("len|mask-excludes-closed-flag|%s#%d" % (loads[next(iter(vo))], n), mc is not None and "flag" not in mc,
+                       "every mask that len() applies to a queue position must exclude the closed-channel bit (else a closed, empty mailbox "
+                       "reports a non-zero length: spurious entries in deadlock reports); abstract mask = %s" % (sorted(mc) if mc is not None else None), [st])
+    want = {("enqueue_pos", frozenset(["low"])), ("dequeue_pos", frozenset(["low"])), ("enqueue_pos", frozenset(["high"])), ("dequeue_pos", frozenset(["high"]))}
+    ctx.ob("len|index-and-sequence-parts", want <= set(classes),
+           "len() combines the index bits and (separately) the sequence bits of both positions", [lb.loc()])
+
+
 RULES = [
+    ("C12.f", "len() is independent of the closed flag", rule_f),
     ("C12.e", "a blocked send retries the push until a slot is free; closed channels fail the send", rule_e),
     ("C12.a", "ordering floors and slot hand-over discipline", rule_a),
     ("C12.b", "notify pairing", rule_b),
